@@ -58,9 +58,9 @@ func init() {
 			{L("(len(recv.Route.Matchers) == 0)", false), "a root route with matchers"},
 			{L("(len(recv.Route.MuteTimeIntervals) == 0)", false), "a root route with mute time intervals"},
 			{L("(len(recv.Route.ActiveTimeIntervals) == 0)", false), "a root route with active time intervals"},
-			{LRe(`makemap:map\[string\]struct\{\}\[&\w+:am/config\.Receiver\.Name\]#1`, true), "a duplicate receiver name"},
-			{LRe(`makemap:map\[string\]struct\{\}\[&\w+:am/config\.MuteTimeInterval\.Name\]#1`, true), "a duplicate mute time interval name"},
-			{LRe(`makemap:map\[string\]struct\{\}\[&\w+:am/config\.TimeInterval\.Name\]#1`, true), "a duplicate time interval name"},
+			{LRe(`makemap:map\[string\]struct\{\}\[recv\.Receivers\[i\]\.Name\]#1`, true), "a duplicate receiver name"},
+			{LRe(`makemap:map\[string\]struct\{\}\[recv\.MuteTimeIntervals\[i\]\.Name\]#1`, true), "a duplicate mute time interval name"},
+			{LRe(`makemap:map\[string\]struct\{\}\[recv\.TimeIntervals\[i\]\.Name\]#1`, true), "a duplicate time interval name"},
 			{LRe(`\(am/config\.checkReceiver\(recv\.Route, makemap:map\[string\]struct\{\}\) == nil\)`, false), "an undefined receiver"},
 		} {
 			o.rejectsAfter(fn, c.lit, "accept|"+c.what, c.what, accept)
@@ -84,7 +84,7 @@ func init() {
 		for _, in := range AllInstrs(fn) {
 			if lk, ok := in.(*ssa.Lookup); ok && lk.CommaOk {
 				k := e.X(fn, lk.Index)
-				if strings.HasSuffix(k, "TimeInterval.Name") {
+				if strings.HasSuffix(k, "TimeIntervals[i].Name") || strings.HasSuffix(k, "TimeInterval.Name") {
 					lookups = append(lookups, lk)
 				}
 			}
